@@ -31,7 +31,7 @@ eval_frames = fl.eval_frames
 
 
 # ---- synthetic stream ------------------------------------------------------------------------------------
-def type_list(tb, rng):
+def type_list(tb, rng, with_vars=True):
     ts = list(tb.simple) + list(tb.cons)
     bs = tb.boxed_builtins()
     ts += rng.sample(bs, min(len(bs), rng.randint(2, 6)))
@@ -39,7 +39,7 @@ def type_list(tb, rng):
         ts.append(tb.any)
     if rng.random() < 0.3 and tb.builtin_cons:
         ts.append(tb.builtin_cons[0])
-    if rng.random() < 0.3:
+    if with_vars and rng.random() < 0.3:
         ts += [v for v in tb.scope_vars() if v.name.startswith("F_")][:1]
     rng.shuffle(ts)
     return ts
@@ -65,7 +65,7 @@ def wb_inst(tb, rng, con, depth, allow_wild, scope=()):
                 else:
                     cands = [c for c in tb.simple + tb.boxed_builtins() if c == b or refsub.sub(c, b)]
                     a = rng.choice(cands) if (cands and rng.random() < 0.5) else b
-                    if allow_wild and rng.random() < 0.15 and kind(a) != "w":
+                    if allow_wild and rng.random() < 0.15 and kind(a) != "w" and not p.is_contravariant():
                         a = tp.WildCardType(a, tp.Covariant)
             m[p] = a
             args.append(a)
@@ -83,10 +83,9 @@ def query(tb, rng):
     cls = tb.simple + tb.cons
     if r < 0.25 and cls:
         c = rng.choice(cls)
-        t = tb.supertype_of(c)                       # something that HAS subtypes in the table
-        if kind(t) == "c":
-            t = wb_inst(tb, rng, t, 1, rng.random() < 0.5)
-        return t
+        if kind(c) == "c":
+            c = wb_inst(tb, rng, c, 1, rng.random() < 0.5)
+        return tb.supertype_of(c)                    # something that HAS subtypes in the table
     if r < 0.4 and tb.simple:
         return rng.choice(tb.simple)
     if r < 0.75 and (tb.cons or tb.builtin_cons):
@@ -103,18 +102,18 @@ def synthetic(run, ntables, per_table):
     from src import utils
     import src.ir.type_utils as tu
     rng = run.rng
-    tot = {"frames": 0, "requests": 0, "exact_diffs": 0, "rejected": 0, "returned_types": 0}
     exc = {}
+    allframes = []
     for ti in range(ntables):
         tb = gen_types.Table(rng, pbound=0.3)
         boxes = fl.boxes_of(tb.bt)
         frames = []
         with fl.Instrument() as ins:
             for _ in range(per_table):
-                types = type_list(tb, rng)
+                k = rng.random()
+                types = type_list(tb, rng, with_vars=k < 0.65)
                 q = query(tb, rng)
                 utils.random.r.seed(rng.randrange(1 << 30))
-                k = rng.random()
                 try:
                     if k < 0.4:
                         tu.find_subtypes(q, types, include_self=rng.random() < 0.5, concrete_only=rng.random() < 0.6)
@@ -130,10 +129,10 @@ def synthetic(run, ntables, per_table):
                     exc[type(e).__name__] = exc.get(type(e).__name__, 0) + 1
                 for fr in ins.take():
                     fr["boxes"] = boxes
+                    fr["where"] = {"table": ti, "lang": tb.lang}
                     frames.append(fr)
-        st = eval_frames(run, frames, "tables", origin={"stream": "tables", "table": ti, "lang": tb.lang})
-        for k2 in tot:
-            tot[k2] += st[k2]
+        allframes += frames
+    tot = eval_frames(run, allframes, "tables", origin={"stream": "tables"})
     run.cov["synthetic"] = dict(tot, tables=ntables, top_level_exceptions=exc)
     run.log("stream tables: %d tables, %d frames, %d requests, %d exact differ, %d answers rejected, %d returned types judged; exceptions %s"
             % (ntables, tot["frames"], tot["requests"], tot["exact_diffs"], tot["rejected"], tot["returned_types"], exc))
@@ -154,6 +153,26 @@ def witness_tables():
         ("same_constructor", bt, Prod.new([kt.Any]), [Foo, Baz, Prod, kt.String],
          lambda r: kind(r) == "p" and r.name == "Prod"),
     ]
+
+
+def detect_variant():
+    """which find_irrelevant_type does the tree implement?  Replays the two witnesses."""
+    from src import utils
+    import src.ir.type_utils as tu
+    seen = {}
+    for name, bt, q, types, pred in witness_tables():
+        hit = 0
+        for i in range(60):
+            utils.random.r.seed(i)
+            r = tu.find_irrelevant_type(q, types, bt)
+            if r is not None and pred(r):
+                hit += 1
+        seen[name] = hit
+    if all(seen.values()):
+        return "asIs", seen
+    if not any(seen.values()):
+        return "repaired", seen
+    return "mixed:" + ",".join(k for k, v in seen.items() if v), seen
 
 
 def witnesses(run):
@@ -184,7 +203,7 @@ def generator_stream(run, nprog):
         lang = pipeline.LANGS[i % 4]
         specs.append({"lang": lang, "seed": run.seed * 100003 + i, "switches": (0, 0, 0, 0), "max_depth": 6,
                       "stages": ["gen", "overwrite"], "export": False, "cap": 60 if run.tier == "quick" else 150,
-                      "plugins": ["plug_find"]})
+                      "plugins": ["plug_find"], "find_variant": fl.VARIANT["v"]})
     results = pipeline.run_many(specs, workers=16 if nprog <= 16 else None)
     cut = exc = 0
     agg = {"frames": 0, "requests": 0, "exact_diffs": 0, "rejected": 0, "returned_types": 0, "calls_find": 0,
@@ -248,6 +267,18 @@ def check(run):
                        "instantiation, available_types == model availTypes; refinement: Lean checkers subtypesOK / "
                        "irrelevantOK (decider isSubD) on every returned list / answer; non-trivial = non-empty expected set "
                        "or non-empty answer")
+    variant, seen = detect_variant()
+    cur = common.run_driver([{"op": "find.current"}])[0].get("r")
+    run.cov["tree_variant"] = variant
+    run.cov["lean_current_variant"] = cur
+    run.log("tree implements find_irrelevant_type variant %s (witness draws %s); Lean `Variant.current` = %s" % (variant, seen, cur))
+    fl.VARIANT["v"] = variant if variant in ("asIs", "repaired") else "asIs"
+    if cur != variant and variant == "asIs":
+        run.violation({"kind": "broken-proof", "what": "Find.Variant.current = repaired but the tree implements the unchanged "
+                       "find_irrelevant_type", "detail": seen}, signature="find.variant:lean-ahead-of-tree", no_input=True)
+    elif cur != variant and variant == "repaired":
+        run.assumptions.append("the tree implements the repaired find_irrelevant_type; switch Heph.Find.Variant.current to "
+                               ".repaired")
     witnesses(run)
     synthetic(run, 40 if quick else 1500, 40 if quick else 60)
     generator_stream(run, 16 if quick else 240)
